@@ -34,7 +34,7 @@ DEFAULT_PROFILE = {
     "p_sstream": 0.25, "p_cstream": 0.15, "p_bidi": 0.15, "p_lro": 0.3, "p_raw_op": 0.08,
     "p_http": 0.9, "p_signature": 0.7, "p_routing": 0.25, "p_keyword_rpc": 0.08,
     "p_service_config": 0.8, "p_yaml": 0.3, "p_reserved_field": 0.08, "p_two_services": 0.25,
-    "p_foreign_request": 0.1, "p_shuffle_numbers": 0.2, "p_additional_binding": 0.25, "p_param_name_collision": 0.0, "p_stream_of_empty": 0.06, "p_stream_routing": 0.0, "p_routing_name_clash": 0.0, "p_required_optional": 0.0, "p_body_only_in_additional": 0.0, "p_foreign_paged": 0.0, "p_case_twin_fields": 0.0, "p_deprecated_flattened": 0.0,
+    "p_foreign_request": 0.1, "p_shuffle_numbers": 0.2, "p_additional_binding": 0.25, "p_param_name_collision": 0.0, "p_stream_of_empty": 0.06, "p_stream_routing": 0.0, "p_routing_name_clash": 0.0, "p_required_optional": 0.0, "p_body_only_in_additional": 0.0, "p_foreign_paged": 0.0, "p_case_twin_fields": 0.0, "p_deprecated_flattened": 0.0, "p_deep_path_var": 0.0,
     "p_auto_populate": 0.0, "p_google_api_ns": 0.0, "sig_variants": False, "p_multi_var_path": 0.0, "mixin_variants": False, "p_add_iam_methods": 0.0, "p_equal_sort_keys": 0.0, "p_reserved_path_var": 0.0, "p_local_empty": 0.0, "p_same_method_two_services": 0.0, "p_required_enum": 0.0, "p_custom_http_pattern": 0.0, "p_real_api": 0.04, "p_nested_name_ties": 0.15, "p_double_star_path": 0.0, "p_value_fields": 0.0, "p_mixed_foreign_io": 0.0, "common_file_names": ["resources"],
     "transports": ["grpc", "grpc+rest", "grpc+rest", "rest"],
     "p_numeric_enums": 0.3,
@@ -488,6 +488,16 @@ def _gen_methods(cx, pkg, main, svc, noun, res, enums, msgs):
                 req_m["fields"].append({"name": f"{low}_name", "number": 7, "type": "string"})
                 extra = {"field": f"{low}_name", "path_template": "{flat_id=**}"} if rng.random() < 0.5 else {"field": f"{low}_name"}
                 m["routing"] = (m["routing"] + [extra]) if rng.random() < 0.5 else ([extra] + m["routing"])
+        svc["methods"].append(m)
+
+    if cx.chance("p_deep_path_var") and _unique_method(svc, f"Amend{noun}"):
+        # a path variable THREE levels deep: {change.<noun>.name=...} (implicit routing reads request.change.<noun>.name)
+        _msg(main, f"{noun}Change", [{"name": low, "number": 1, "type": "message", "type_name": P + "." + noun},
+                                     {"name": "reason", "number": 2, "type": "string"}])
+        _msg(main, f"Amend{noun}Request", [{"name": "change", "number": 1, "type": "message", "type_name": f"{P}.{noun}Change", "required": True},
+                                           {"name": "dry_run", "number": 2, "type": "bool"}])
+        m = {"name": f"Amend{noun}", "input": f"{P}.Amend{noun}Request", "output": P + "." + noun,
+             "http": {"verb": "patch", "path": f"{pre}/{{change.{low}.name={wild}}}:amend", "body": "change"}}
         svc["methods"].append(m)
 
     if cx.chance("p_delete"):
